@@ -388,7 +388,8 @@ fn gen_outbound(kind: OutKind, ch: &mut Choices) -> Plan {
                         1 => chunks.push(1 + ch.choose(5)),
                         _ => {}
                     }
-                    ops.push(AppOp::StreamQ1 { size, chunks, pid: None });
+                    let pid = if ch.chance(1, 4) { Some(1 + ch.choose(3) as u16) } else { None };
+                    ops.push(AppOp::StreamQ1 { size, chunks, pid });
                 }
                 1 => {
                     let size = 1 + ch.choose(60);
@@ -402,7 +403,13 @@ fn gen_outbound(kind: OutKind, ch: &mut Choices) -> Plan {
                     }
                     ops.push(AppOp::StreamQ0 { size, chunks });
                 }
-                2 => ops.push(AppOp::BadTopicTooLong { qos: ch.choose(2) as u8 }),
+                2 => {
+                    if !role.is_server() && ch.chance(1, 2) {
+                        ops.push(AppOp::BadSubscribe { unsub: ch.chance(1, 2) });
+                    } else {
+                        ops.push(AppOp::BadTopicTooLong { qos: ch.choose(2) as u8 });
+                    }
+                }
                 _ => ops.push(AppOp::PubQ1 { len: 3, pid: Some(1 + ch.choose(3) as u16) }),
             }
             plan.senders.push(ops);
